@@ -10,6 +10,9 @@ import warnings
 warnings.filterwarnings("ignore")
 
 sys.path.insert(0, os.path.dirname(os.path.dirname(os.path.abspath(__file__))))
+if os.environ.get("ODCSIM_REPO"):
+    # sensitivity runs: import a scratch copy of the repository instead of /repo (never used by registered commands)
+    sys.path.insert(0, os.environ["ODCSIM_REPO"])
 
 from odcsim import core  # noqa: E402  pylint: disable=wrong-import-position
 
